@@ -419,6 +419,20 @@ pub fn core(rep: &Report, thorough: bool) {
         rep.require("pairs of connections served side by side in which both got past the handshake", busy, 1000);
         rep.set("pairs_of_connections_side_by_side", json!(runs));
     }
+    // the n-th connection of a process is served like the first (5 000 logins one after the other; the ones around
+    // powers of two and the last are judged)
+    {
+        let keep: Vec<usize> = vec![0, 1, 2, 3, 62, 63, 64, 65, 254, 255, 256, 257, 258, 1022, 1023, 1024, 1025, 4094, 4095, 4096, 4097, 4998, 4999];
+        let many = crate::sim::after_many_connections(5_000, &keep, b"many-connections-secret");
+        for (i, case, obs) in &many {
+            for (aspect, text) in crate::sim::many_connections_faults(*i, case, obs, b"many-connections-secret") {
+                if aspect == "identity" {
+                    rep.violation(Violation { key: "identity-of-the-nth-connection".into(), text, replay: json!({"earlier": "many-connections", "index": i}), weight: 9 });
+                }
+            }
+        }
+        rep.set("connections_of_one_process_one_after_the_other", json!(5_000));
+    }
     let all = specs(thorough);
     let distinct: Mutex<HashSet<String>> = Mutex::new(HashSet::new());
     let admitted = AtomicU64::new(0);
